@@ -50,6 +50,8 @@ static int dl_is_far (int k) { return k == DL_MAXM1 || k == DL_NONE; }
 static nsync_mu mu; static nsync_cv cv; static int flag;
 static nsync_note note, notes[3]; static nsync_counter ctr, ctr2;
 static int ev_kind;
+static nsync_time event_time, used_deadline;   /* when the late event was actually made; the deadline the case used */
+static volatile int event_made;
 static int cond (const void *v) { return *(const int *) v != 0; }
 static void lk (void *m) { nsync_mu_lock ((nsync_mu *) m); }
 static void ulk (void *m) { nsync_mu_unlock ((nsync_mu *) m); }
@@ -68,12 +70,15 @@ static void *later (void *v) {
 	int ep = (int) (intptr_t) v;
 	nsync_time_sleep (nsync_time_ms (D_MS / 2));
 	make_event (ep);
+	event_time = nsync_time_now ();
+	event_made = 1;
 	return NULL;
 }
 /* returns 0 = event/success result, 1 = timeout result, 2 = cancelled */
 static int run_case (int ep, int dlk) {
 	nsync_time dl = deadline_of (dlk);
 	int r = 0;
+	used_deadline = dl;
 	struct nsync_waitable_s w[5]; struct nsync_waitable_s *pw[5]; int i;
 	switch (ep) {
 	case EP_CV: case EP_CV_NOTE: case EP_CV_READER:
@@ -132,7 +137,14 @@ static int child (int ep, int dlk, int ev) {
 	}
 	/* event at +d/2 */
 	if (dl_is_past (dlk)) return (r == 1 || r == 0) && el_ms < 2000 ? 0 : 14;   /* either answer is right, promptly */
-	if (dlk == DL_NOW_PLUS || dl_is_far (dlk)) return r == 0 ? 0 : 18;           /* must see the event, not a timeout */
+	if (dl_is_far (dlk)) return r == 0 ? 0 : 18;                                 /* must see the event, not a timeout */
+	if (dlk == DL_NOW_PLUS) {
+		/* must see the event -- unless this machine was so loaded that the helper thread only got to
+		   make the event after the deadline had passed, in which case the timeout is the right answer */
+		if (r == 0) return 0;
+		if (!event_made || nsync_time_cmp (event_time, used_deadline) >= 0) return 0;
+		return 18;
+	}
 	return 0;
 }
 int main (int argc, char **argv) {
